@@ -168,8 +168,25 @@ func (r *Report) finish() int {
 			undecided = append(undecided, res.Err)
 		}
 		if res.Unit != nil && len(res.Unit.bindErrors) > 0 {
-			for _, b := range res.Unit.bindErrors {
-				undecided = append(undecided, "binding: "+b)
+			// a contract clause that no longer binds to the code (a name it mentions is gone, a type changed): the
+			// obligations it generated on the unchanged tree cannot be generated any more. Reported as a failed
+			// obligation of the unit (kind "binding"), not silently dropped.
+			var ps []string
+			if res.Unit.contract != nil {
+				ps = res.Unit.contract.Props
+			}
+			seenBind := map[string]bool{}
+			for i, b := range res.Unit.bindErrors {
+				if seenBind[b] {
+					continue
+				}
+				seenBind[b] = true
+				txt := firstLine(b)
+				if len(txt) > 200 {
+					txt = txt[:200]
+				}
+				r.Obls = append(r.Obls, &Obligation{Name: fmt.Sprintf("%s/binding[%s]#%d", res.Key, txt, i+1), Kind: "binding", Func: res.Key, In: res.Key,
+					Props: ps, Text: b, Pos: "contract", Status: "error", Output: "contract clause does not bind to the code: " + b, unit: res.Unit})
 			}
 		}
 	}
